@@ -118,6 +118,8 @@ type nnsEngine struct {
 	sigFaults     bool
 	gasCuts       bool
 	exactInstants bool
+	reentrant     bool         // C10: the run ends with a registration through the forwarder probe
+	fwd           util.Uint160 // the forwarder probe
 	deepSub       bool
 	dupSet        bool
 	maxBlock      int
@@ -170,6 +172,7 @@ func (e *nnsEngine) run() {
 	// again from that instant"), so a former owner has no rights then and the
 	// name serves no records; the other half steps over it (see clock)
 	e.exactInstants = Chance(t, "exactExpirationInstants", 50)
+	e.reentrant = Chance(t, "forwardedRegistrationAtTheEnd", 50)
 	e.dupSet = Chance(t, "duplicatingSetRecord", 50)
 	e.maxBlock = []int{6, 1, 3}[Pick(t, "maxPerBlock", 3)]
 	shortLife := []int64{2 * 365 * 24 * 3600, 3600, 365 * 24 * 3600}[Pick(t, "shortTLDLife", 3)]
@@ -188,6 +191,9 @@ func (e *nnsEngine) run() {
 	e.nns, e.nnsID = w.C["nns"].Hash, w.C["nns"].ID
 	holder := w.Deploy("holder", CompileContract(AuxDir("holder")), nil).Hash
 	e.resolv = w.Deploy("nnsresolver", CompileContract(AuxDir("nnsresolver")), nil).Hash
+	if e.r.Prop == "C10" && e.reentrant {
+		e.fwd = w.Deploy("forwarder", CompileContract(AuxDir("forwarder")), nil).Hash
+	}
 	e.m = &nnsModel{names: map[string]*nnsName{}}
 	e.touched = map[string]bool{}
 	e.authChanged = map[string]bool{}
@@ -265,6 +271,95 @@ func (e *nnsEngine) run() {
 		e.block(pending, 1)
 	}
 	e.finalSweep()
+	if e.r.Prop == "C10" && e.reentrant {
+		e.forwardedRegistration()
+	}
+}
+
+// forwardedRegistration closes a C10 run with one more registration, made by
+// a registrar contract that hands the name on from inside the payment
+// callback (NNS is called back while still inside register). The model is not
+// consulted: what C10 says about one registration followed by one transfer is
+// checked directly on the read API.
+func (e *nnsEngine) forwardedRegistration() {
+	w, r := e.w, e.r
+	name := "fwd-last.lng"
+	av, err := w.Read(e.nns, "isAvailable", name)
+	if b, _ := av.TryBool(); err != nil || !b {
+		return // the TLD has run out in this history (or holds the name already)
+	}
+	target := e.actors[1]
+	fw := e.fwd.BytesBE()
+	intOf := func(m string, args ...any) int64 {
+		it, err := w.Read(e.nns, m, args...)
+		if err != nil {
+			r.Violation("C10/forwarded-registration-mismatch", "", "%s%v FAULTs: %v", m, args, err)
+			return -1
+		}
+		v, _ := it.TryInteger()
+		return v.Int64()
+	}
+	tokens := func(o []byte) []string {
+		p := w.WhatIf(CallScript(e.nns, "tokensOf", o), nil, 1)
+		var out []string
+		for _, l := range p.RawIters {
+			for _, it := range l {
+				out = append(out, string(ItemBytes(it)))
+			}
+		}
+		sort.Strings(out)
+		return out
+	}
+	sup0, balT0, balF0 := intOf("totalSupply"), intOf("balanceOf", target.hash), intOf("balanceOf", fw)
+	tx := w.CallTx(nil, -1, e.fwd, "register", e.nns, name, target.hash)
+	aer := w.AddBlock([]*transaction.Transaction{tx}, 1)[0]
+	r.AddBlock(1, 1)
+	r.Tracef("h=%d forwarder.register(%s → %s) %s %s", w.Height(), name, target.name, aer.VMState, clipStr(aer.FaultException, 80))
+	if aer.VMState != vmstate.Halt {
+		r.Count("outcome.forwardedRegister.refused")
+		return // the statement does not promise that such a registrar is served
+	}
+	r.Count("outcome.forwardedRegister.ok")
+	r.Count("probe.name_handed_on_inside_the_payment_callback")
+	bad := func(format string, a ...any) {
+		r.Violation("C10/forwarded-registration-mismatch", "", "after forwarder.register(%s → %s): %s", name, target.name, fmt.Sprintf(format, a...))
+	}
+	if own, err := w.Read(e.nns, "ownerOf", name); err != nil || !bytes.Equal(ItemBytes(own), target.hash) {
+		bad("ownerOf = %v (%v), expected %x", own, err, target.hash)
+	}
+	if v := intOf("totalSupply"); v != sup0+1 {
+		bad("totalSupply %d → %d", sup0, v)
+	}
+	if v := intOf("balanceOf", target.hash); v != balT0+1 {
+		bad("balanceOf(%s) %d → %d", target.name, balT0, v)
+	}
+	if v := intOf("balanceOf", fw); v != balF0 {
+		bad("balanceOf(forwarder) %d → %d", balF0, v)
+	}
+	for _, n := range tokens(fw) {
+		if n == name {
+			bad("tokensOf(forwarder) lists the name it handed on")
+		}
+	}
+	found := false
+	for _, n := range tokens(target.hash) {
+		found = found || n == name
+	}
+	if !found {
+		bad("tokensOf(%s) does not list the name", target.name)
+	}
+	var moves []string
+	for _, ev := range aer.Events {
+		if ev.Name == "Transfer" && ev.ScriptHash == e.nns {
+			a := ev.Item.Value().([]stackitem.Item)
+			if len(a) == 4 && string(ItemBytes(a[3])) == name {
+				moves = append(moves, fmt.Sprintf("%x>%x", ItemBytes(a[0]), ItemBytes(a[1])))
+			}
+		}
+	}
+	if want := []string{fmt.Sprintf("%x>%x", []byte(nil), fw), fmt.Sprintf("%x>%x", fw, target.hash)}; strings.Join(moves, " ") != strings.Join(want, " ") {
+		bad("Transfer notifications %v, expected %v", moves, want)
+	}
 }
 
 // calibrateTLDs dates the deploy-time TLDs: they live ten years from the block
